@@ -16,6 +16,9 @@ def run(ctx):
     from ..volumes import rule_V2
     rule_M1(ctx)
     rule_V2(ctx)      # leaf level: the ellipsoid sampler and contains() use inverse matrices
+    from ..volumes import rule_V3
+    k3 = rule_V3(ctx)
+    ctx.require(k3 >= 2, 'V3 decided only %d enclosure sites (floor 2)' % k3)
     from ..effects import rule_F9
     rule_F9(ctx)      # contains() / transform() leave the points they are asked about alone
     rule_A4(ctx)
@@ -27,7 +30,8 @@ def run(ctx):
     ctx.rule('L1', 'group-complete: bounds / points_bounds / block change together in split and '
              'trim (so that the enclosure of the recorded points carries over to the union)')
     for q in ('Union.split', 'Union.trim'):
-        f = prog.func(q)
+        from ..loader import helper_view
+        f = helper_view(prog, prog.func(q))
         tr = ExpandingTracker(f, G_UNION.members + ['log_v_all'], arrays={'block', 'log_v_all'})
         check_group_paths(ctx, 'L1', f, G_UNION, tracker=tr, max_loop=1)
         rule_T9(ctx, f, tr)
